@@ -198,6 +198,7 @@ func TestReplay(t *testing.T) {
 			}
 		}
 		id := fmt.Sprintf("b%d", idx)
+		out.Begin(id, "layerdb:crash")
 		at, kind, what := runBehaviour(steps, salt, early)
 		if at >= 0 {
 			out.Violation(id, "layerdb:"+kind+":"+steps[at].Op, what, map[string]interface{}{"behaviour": steps, "salt": salt, "early": early})
